@@ -40,10 +40,11 @@ theorem table_rowOK : ∀ r ∈ formActions, rowOK r = true := all_of_shards sha
 
 private theorem rowOK_parts {r : Row} (h : rowOK r = true) :
     shapeOK faMeta r = true ∧ cancellingOK faMeta r = true ∧ implicitOK faMeta regTbl r = true ∧
-    cmovOK faMeta r = true ∧ setccOK faMeta r = true ∧ maskSourceOnly r = true ∧ nonFinalMaskWritten r = false := by
+    cmovOK faMeta r = true ∧ setccOK faMeta r = true ∧ maskSourceOnly r = true ∧ nonFinalMasksRead faMeta r = true ∧
+    bitscanOK faMeta r = true ∧ deniedOK faMeta r = true := by
   unfold rowOK at h
-  simp only [Bool.and_eq_true, Bool.not_eq_true'] at h
-  exact ⟨h.1.1.1.1.1.1, h.1.1.1.1.1.2, h.1.1.1.1.2, h.1.1.1.2, h.1.1.2, h.1.2, h.2⟩
+  simp only [Bool.and_eq_true] at h
+  exact ⟨h.1.1.1.1.1.1.1.1, h.1.1.1.1.1.1.1.2, h.1.1.1.1.1.1.2, h.1.1.1.1.1.2, h.1.1.1.1.2, h.1.1.1.2, h.1.1.2, h.1.2, h.2⟩
 
 /-- **Self-cancelling forms.** In every form flagged `CancellingInputs`, the first two
 operands with a read action are explicit operands of one and the same single-register type:
@@ -69,7 +70,8 @@ physical register (id, mask) of the regenerated register table. -/
 theorem implicit_operands_resolve :
     ∀ r ∈ formActions, ∀ o ∈ r.ops, o.impl = true →
       ∃ name id mask, faMeta.implRegs[o.ty]? = some (name, id, mask) ∧ name ≠ 0 ∧ id % 2 = 0 ∧
-        (id, mask) ∈ regTbl := by
+        (id, mask) ∈ regTbl ∧
+        (∀ i k, knownImpl.find? (fun e => e.1 == name) = some (name, i, k) → id = i ∧ mask = k) := by
   intro r hr o ho hi
   have h := (rowOK_parts (table_rowOK r hr)).2.2.1
   unfold implicitOK at h
@@ -80,7 +82,11 @@ theorem implicit_operands_resolve :
   · rename_i name id mask heq
     simp only [Bool.and_eq_true, bne_iff_ne, ne_eq, beq_iff_eq, List.contains_eq_mem,
       decide_eq_true_eq] at this
-    exact ⟨name, id, mask, heq, this.1.1, this.1.2, this.2⟩
+    refine ⟨name, id, mask, heq, this.1.1.1, this.1.1.2, this.1.2, ?_⟩
+    intro i k hf
+    have h2 := this.2
+    rw [hf] at h2
+    simpa using h2
   · exact absurd this (by simp)
 
 /-- **CMOVcc.** The destination of every conditional move is a register that is read and
@@ -121,26 +127,11 @@ theorem table_shape : ∀ r ∈ formActions, shapeOK faMeta r = true :=
 /-- A suffix class either always or never carries `Z` (so "the class forces zeroing" is well defined). -/
 theorem suffix_classes_Z_consistent : clsZConsistent faMeta = true := by decide +kernel
 
-/-- opcodes having a row with a read opmask operand before a vector-register destination,
-a suffix class that does not force zeroing, and a destination that is NOT read-and-written -/
-def mergeExceptions : List Nat := (formActionShards.flatMap (exceptions faMeta (mergeDestOK faMeta))).eraseDups
-
-/-- **Merge-masked destinations are read.** Among the 3 029 rows with a read opmask operand
-in front of a vector-register destination and no forced `.Z`, the destination is declared
-read-and-written — except for exactly these six opcodes, where the opmask register is the
-SOURCE operand (mask-to-vector moves and broadcasts), not a write mask (`maskSourceOnly`,
-part of `rowOK`). -/
-theorem merge_destinations_read_write :
-    mergeExceptions =
-      [ 0x565042524f4144434153544d423251  -- VPBROADCASTMB2Q
-      , 0x565042524f4144434153544d573244  -- VPBROADCASTMW2D
-      , 0x56504d4f564d3242                 -- VPMOVM2B
-      , 0x56504d4f564d3244                 -- VPMOVM2D
-      , 0x56504d4f564d3251                 -- VPMOVM2Q
-      , 0x56504d4f564d3257 ] := by         -- VPMOVM2W
-  decide +kernel
-
-/-- Row-level form of the two facts above. -/
+/-- **Merge-masked destinations are read.** In every row with a read opmask operand in front of a
+vector-register destination and no forced `.Z`, the destination is declared read-and-written — or the row
+has exactly the two operands `k, vector` with the opmask register a read-only SOURCE and the vector a
+write-only destination (mask-to-vector moves and broadcasts: `VPMOVM2*`, `VPBROADCASTM*`; the set of such
+opcodes is not fixed here, only their shape). -/
 theorem masked_vector_destination :
     ∀ r ∈ formActions, maskedVecDest faMeta r = true → clsAllZ faMeta r = false →
       (∃ d, lastExplicit r = some d ∧ d.reads = true ∧ d.writes = true) ∨
@@ -164,12 +155,62 @@ theorem masked_vector_destination :
       exact ⟨k, d, heq, h.1.1.1.1.1, h.1.1.1.1.2⟩
     · exact absurd h (by simp)
 
-/-- Table-level FINDING fact (see known_findings.json C04-GATHER-K): no row declares a write
-of an opmask operand that is not the final operand — in particular the completion mask of
-the AVX-512 gathers and scatters, which the processor clears, is declared read-only. -/
-theorem no_nonfinal_opmask_declared_written :
-    ∀ r ∈ formActions, nonFinalMaskWritten r = false :=
-  fun r hr => (rowOK_parts (table_rowOK r hr)).2.2.2.2.2.2
+/-- **Opmask operands in front of the destination are read** (write masks and mask sources). Nothing is
+said about whether they are also written: the completion mask of gathers/scatters (finding C04-GATHER-K)
+may become read-write without breaking this. -/
+theorem nonfinal_opmasks_read :
+    ∀ r ∈ formActions, nonFinalMasksRead faMeta r = true :=
+  fun r hr => (rowOK_parts (table_rowOK r hr)).2.2.2.2.2.2.1
+
+/-- **BSF/BSR.** The destination of every bit scan is a register that is read and written (it keeps its
+value when the source is zero). -/
+theorem bitscan_destination_read_write :
+    ∀ r ∈ formActions, (hasPrefix nBSF (opcName faMeta r) || hasPrefix nBSR (opcName faMeta r)) = true →
+      ∃ d, lastExplicit r = some d ∧ d.reads = true ∧ d.writes = true := by
+  intro r hr hp
+  have h := (rowOK_parts (table_rowOK r hr)).2.2.2.2.2.2.2.1
+  unfold bitscanOK at h
+  simp only [hp, Bool.not_true, Bool.false_or] at h
+  split at h
+  · rename_i d heq
+    simp only [Bool.and_eq_true] at h
+    exact ⟨d, heq, h.1.1, h.1.2⟩
+  · exact absurd h (by simp)
+
+/-- **Rows the measurement never executes** (relative branches, JCXZ*, PUSH/POP, indirect JMP, SYSCALL)
+declare their operands as `deniedOK` requires. -/
+theorem denied_rows_declare_their_operands : ∀ r ∈ formActions, deniedOK faMeta r = true :=
+  fun r hr => (rowOK_parts (table_rowOK r hr)).2.2.2.2.2.2.2.2
+
+private theorem deniedOK_parts {r : Row} (h : deniedOK faMeta r = true) :
+    (r.opc ≠ nJCXZQ ∨ (r.ops.any (fun o => implResolves faMeta o idRCX 15 && o.reads)) = true) ∧
+    (r.opc ≠ nJCXZL ∨ (r.ops.any (fun o => implResolves faMeta o idRCX 7 && o.reads)) = true) := by
+  unfold deniedOK at h
+  simp only [Bool.and_eq_true, Bool.or_eq_true, bne_iff_ne, ne_eq] at h
+  exact ⟨h.1.1.1.1.1.2, h.1.1.1.1.2⟩
+
+/-- `JCXZQ` reads the implicit `RCX` it tests, `JCXZL` the implicit `ECX`. -/
+theorem jcxz_reads_rcx :
+    ∀ r ∈ formActions,
+      (r.opc = nJCXZQ → ∃ o ∈ r.ops, implResolves faMeta o idRCX 15 = true ∧ o.reads = true) ∧
+      (r.opc = nJCXZL → ∃ o ∈ r.ops, implResolves faMeta o idRCX 7 = true ∧ o.reads = true) := by
+  intro r hr
+  have h := deniedOK_parts (denied_rows_declare_their_operands r hr)
+  constructor
+  · intro he
+    rcases h.1 with h1 | h1
+    · exact absurd he h1
+    · rw [List.any_eq_true] at h1
+      obtain ⟨o, ho, hb⟩ := h1
+      rw [Bool.and_eq_true] at hb
+      exact ⟨o, ho, hb.1, hb.2⟩
+  · intro he
+    rcases h.2 with h1 | h1
+    · exact absurd he h1
+    · rw [List.any_eq_true] at h1
+      obtain ⟨o, ho, hb⟩ := h1
+      rw [Bool.and_eq_true] at hb
+      exact ⟨o, ho, hb.1, hb.2⟩
 
 /-- some row satisfies `p` -/
 def someRow (p : Row → Bool) : Bool := formActionShards.any (fun s => s.any p)
@@ -191,7 +232,34 @@ example : cancellingOK { opcodes := #[], typeNames := #[0, 0x786d6d, 0x6d313238]
     ⟨1, 0, 8, [⟨2, false, 1⟩, ⟨1, false, 1⟩, ⟨1, false, 2⟩]⟩ = false := by decide
 example : cancellingOK { opcodes := #[], typeNames := #[0, 0x786d6d, 0x6d313238], implRegs := #[], sfxClasses := #[] }
     ⟨1, 0, 8, [⟨1, false, 1⟩, ⟨1, false, 1⟩, ⟨1, false, 2⟩]⟩ = true := by decide
+example : someRow (fun r => r.opc == nJCXZQ) = true := by decide +kernel
+example : someRow (fun r => r.opc == nJCXZL) = true := by decide +kernel
+example : someRow (fun r => r.opc == nPUSHQ) = true := by decide +kernel
+example : someRow (fun r => r.opc == nPOPQ) = true := by decide +kernel
+example : someRow (fun r => r.opc == nSYSCALL) = true := by decide +kernel
+example : someRow (fun r => hasPrefix nBSF (opcName faMeta r)) = true := by decide +kernel
+example : someRow (fun r => r.ops.any (isRel faMeta)) = true := by decide +kernel
+/-- `JCXZQ rel8` without the implicit RCX read (or with the read dropped) is rejected; with it, accepted -/
+example : deniedOK { opcodes := #[], typeNames := #[0, nREL8], implRegs := #[(0, 0, 0), (0x726378, idRCX, 15)], sfxClasses := #[] }
+    ⟨nJCXZQ, 0, 6, [⟨1, false, 0⟩]⟩ = false := by decide
+example : deniedOK { opcodes := #[], typeNames := #[0, nREL8], implRegs := #[(0, 0, 0), (0x726378, idRCX, 15)], sfxClasses := #[] }
+    ⟨nJCXZQ, 0, 6, [⟨1, false, 0⟩, ⟨1, true, 0⟩]⟩ = false := by decide
+example : deniedOK { opcodes := #[], typeNames := #[0, nREL8], implRegs := #[(0, 0, 0), (0x726378, idRCX, 15)], sfxClasses := #[] }
+    ⟨nJCXZQ, 0, 6, [⟨1, false, 0⟩, ⟨1, true, 1⟩]⟩ = true := by decide
+/-- `POPQ r64` with the write dropped and `PUSHQ r64` with the read dropped are rejected -/
+example : deniedOK { opcodes := #[], typeNames := #[0, nR64], implRegs := #[], sfxClasses := #[] } ⟨nPOPQ, 0, 0, [⟨1, false, 0⟩]⟩ = false := by decide
+example : deniedOK { opcodes := #[], typeNames := #[0, nR64], implRegs := #[], sfxClasses := #[] } ⟨nPUSHQ, 0, 0, [⟨1, false, 0⟩]⟩ = false := by decide
+example : deniedOK { opcodes := #[], typeNames := #[0, nR64], implRegs := #[], sfxClasses := #[] } ⟨nPUSHQ, 0, 0, [⟨1, false, 1⟩]⟩ = true := by decide
+/-- an `implreg` table in which the name `rax` resolves to RCX is rejected (the name is checked against the register) -/
+example : implicitOK { opcodes := #[], typeNames := #[], implRegs := #[(0, 0, 0), (0x726178, idRCX, 15)], sfxClasses := #[] }
+    [(idRCX, 15), (idRAX, 15)] ⟨1, 0, 0, [⟨1, true, 1⟩]⟩ = false := by decide
+example : implicitOK { opcodes := #[], typeNames := #[], implRegs := #[(0, 0, 0), (0x726178, idRAX, 15)], sfxClasses := #[] }
+    [(idRCX, 15), (idRAX, 15)] ⟨1, 0, 0, [⟨1, true, 1⟩]⟩ = true := by decide
 /-- the name constants are the intended ASCII strings -/
+example : [nBSF, nBSR, nJCXZL, nJCXZQ, nPUSHQ, nPUSHW, nPOPQ, nPOPW, nJMP, nSYSCALL, nREL8, nREL32, nIMM8, nIMM32].map (toChars 64 · []) =
+    ["BSF", "BSR", "JCXZL", "JCXZQ", "PUSHQ", "PUSHW", "POPQ", "POPW", "JMP", "SYSCALL", "rel8", "rel32", "imm8", "imm32"].map String.toList := by decide
+example : knownImpl.map (fun e => toChars 64 e.1 []) =
+    ["al", "ax", "eax", "rax", "ebx", "rbx", "ecx", "rcx", "dx", "edx", "rdx", "rdi", "r11", "x0"].map String.toList := by decide
 example : [nR8, nR16, nR32, nR64, nXMM, nYMM, nZMM, nK, nCMOV, nSET].map (toChars 64 · []) =
     ["r8", "r16", "r32", "r64", "xmm", "ymm", "zmm", "k", "CMOV", "SET"].map String.toList := by decide
 
